@@ -39,6 +39,9 @@ func queryText(res *FuncResult, ob *Obligation, cvc bool) string {
 	}
 	if ob.Kind == "cover" {
 		// satisfiability of the prefix (expect sat)
+		if ob.Reach != "" && ob.Reach != "true" {
+			fmt.Fprintf(&b, "(assert %s)\n", ob.Reach)
+		}
 		b.WriteString("(check-sat)\n")
 		return b.String()
 	}
@@ -119,6 +122,10 @@ func solveOne(res *FuncResult, ob *Obligation, cfg *SolverCfg, idx int) {
 	if ob.Kind == "cover" && toS > 3 {
 		toS = 3
 	}
+	if ob.Kind == "cover" && ob.PrePrefix > 0 {
+		// a contradiction between a postcondition and the state at the call is found at once or not at all
+		toS = 1
+	}
 	to := time.Duration(toS) * time.Second
 	ctx, cancel := context.WithCancel(context.Background())
 	defer cancel()
@@ -155,8 +162,21 @@ func solveOne(res *FuncResult, ob *Obligation, cfg *SolverCfg, idx int) {
 			return
 		}
 		if ob.Kind == "cover" && o.answer == "unsat" {
-			ob.Status, ob.Solver, ob.Ms, ob.Output = "refuted", o.solver, o.ms, "preconditions are contradictory"
 			cancel()
+			if ob.PrePrefix > 0 {
+				// the continuation after a call is infeasible: vacuous only if the call itself was reachable
+				// (satisfiability of quantified prefixes is rarely established by the solvers, so the test is: the state
+				// after the call is refuted, the state before it is not)
+				pre := &Obligation{Name: ob.Name, Kind: "cover", Prefix: ob.PrePrefix, Reach: ob.PreReach}
+				solveOne(res, pre, cfg, idx*1000+999)
+				if pre.Status == "refuted" {
+					ob.Status, ob.Solver, ob.Ms = "discharged", "dead-code", o.ms+pre.Ms
+				} else {
+					ob.Status, ob.Solver, ob.Ms, ob.Output = "refuted", o.solver, o.ms+pre.Ms, "the callee's postcondition contradicts what is known at the call: everything after the call is proved vacuously"
+				}
+				return
+			}
+			ob.Status, ob.Solver, ob.Ms, ob.Output = "refuted", o.solver, o.ms, "preconditions are contradictory"
 			return
 		}
 	}
